@@ -114,6 +114,11 @@ def main():
                       'wall_s': round(time.time() - t0, 2)}))
 
 
+VERSIONS = {'fn0': [1, {'a': None}], 'v_zero': 0, 'v_false': False, 'v_empty_str': '',
+            'v_empty_list': [], 'v_empty_dict': {}, 'v_none': None, 'v_float0': 0.0, 'v_true': True,
+            'v_one': 1, 'v_big': 2 ** 70, 'v_text': 'é \U0001f600'}
+
+
 class SkipShape(Exception):
     pass
 
@@ -180,7 +185,7 @@ def check_forest(Cache, rootop, tmp, BFO, SBO, SO):
             pass
         if (dict(c0._files), dict(c0._norm_cased_files), dict(c0._subbuilds)) != before:
             return 'rejected reuse left entries behind'
-    c = Cache.create_empty_mutable('n', {'fn0': [1, {'a': None}]})
+    c = Cache.create_empty_mutable('n', dict(VERSIONS))
     try:
         c.use_cached_operation(rootop)
     except RuntimeError:
@@ -206,9 +211,14 @@ def check_forest(Cache, rootop, tmp, BFO, SBO, SO):
     fn = os.path.join(tmp, 'cache.gz')
     c.write(fn)
     r = Cache.read_immutable(fn)
-    if sorted(r.created_dirs()) != ['/p', '/p/ü'] or r.build_name() != 'n' or \
-            r.get_func_version('fn0') != [1, {'a': None}] or r.get_func_version('zz') is not None:
+    if sorted(r.created_dirs()) != ['/p', '/p/ü'] or r.build_name() != 'n':
         return 'header fields not preserved'
+    for name, ver in VERSIONS.items():
+        got = r.get_func_version(name)
+        if got != ver or type(got) is not type(ver):
+            return 'function version %r read back as %r, written %r' % (name, got, ver)
+    if r.get_func_version('zz') is not None:
+        return 'absent version is not None'
     if sorted(r._files) != sorted(c._files) or set(r._subbuilds) != set(c._subbuilds):
         return 'registered keys differ after the round trip'
     for k, o in list(c._files.items()) + list(c._subbuilds.items()):
